@@ -834,21 +834,41 @@ def pred_c13(line, st):
     return None
 
 
+from pred_c13b import pred_c13b  # noqa: E402  (chunked mode, non-blocking class, several peers)
+
+
+def pred_c13_all(line, st):
+    if line.startswith(("prop.aio2", "aio2.")):
+        return pred_c13b(line, st)
+    return pred_c13(line, st)
+
+
+def c13_final(st):
+    if "nbq" in st or "timeouts" in st:
+        if st.get("nbq", 0) < 10 or st.get("timeouts", 0) < 5 or len(st.get("peers", ())) < 4:
+            return "harness: the aio2 area exercised too little (queue scenarios %s, time-outs %s, peer scenarios %s)" % (st.get("nbq", 0), st.get("timeouts", 0), len(st.get("peers", ())))
+    return None
+
+
 PROPS["C13"] = dict(
     module="TmcgProps.C13",
-    areas=[("aio", {"quick": 96, "thorough": 500}, [], "san")],
+    areas=[("aio", {"quick": 96, "thorough": 500}, [], "san"),
+           ("aio2", {"quick": 96, "thorough": 400}, [], "san")],
     obligations=[("Tmcg.C13.recv_fragmentation_invariant_safety", "full"),
                  ("Tmcg.C13.recv_fragmentation_invariant_delivery", "full"),
                  ("Tmcg.C13.send_fits_buffer", "full"), ("Tmcg.C13.first_newline_is_delimiter", "full"),
-                 ("Tmcg.C13.bad_tag_never_delivered", "full"), ("Tmcg.C13.auth_delivers_only_tagged", "full")],
-    predicate=pred_c13,
+                 ("Tmcg.C13.bad_tag_never_delivered", "full"), ("Tmcg.C13.auth_delivers_only_tagged", "full")]
+                + [("Tmcg.C13." + n, "full") for n in ['nb_send_all_or_nothing', 'nb_send_refused', 'nb_send_timeout', 'closed_link_silent', 'closed_link_silent_select', 'nb_send_mid_message_closes', 'nb_accepted_prefix', 'nb_recv_fragmentation_invariant', 'chunked_roundtrip', 'chunked_any_state', 'chunked_integrity', 'peers_not_mixed', 'link_prefix', 'link_complete', 'link_prefix_truncated', 'frame2_length_le']],
+    predicate=pred_c13_all, final=c13_final,
     level_text="Lean 4 theorems about the executable model of the channel's sender and receiver (stream modes): for every message list, every fragmentation of the byte stream and every interleaving of arrivals and Receive calls the delivered sequence is a prefix of the sent one with no failing call, "
                "and it is complete after finitely many calls; accepted messages always fit the reassembly buffer; a bad tag is never delivered and stops the link; a delivered message carried a tag valid for the current sequence number (forgery reduction). "
                "Correspondence: the real select-based objects on harness-owned pipes, every Send and every Receive(timeout 0) call recorded with the state before/after and the MAC/cipher oracle answers (interposed libgcrypt), fragmentation schedules and wire tampering; "
-               "the non-blocking class and the chunked modes are checked by the whole-scenario predicate only (delivered = sent; under tampering with authentication: a prefix).",
+               "Second part (area aio2): one receiver model for all 16 class x mode combinations (plain, CFB, chunked CTR line codecs) with fragmentation invariance in every mode; the non-blocking sender on a byte queue of any capacity with any drain schedule and a clock (EAGAIN, sleep, time-out in the IV, line or tag stage): a true-returning Send has put exactly the complete framing on the link, a false-returning one a strict prefix and then closes the link (repair of F41), hence for ANY sequence of Sends the delivered sequence is a prefix of the accepted values; several peers behind one object under the three schedulers are never mixed. Real objects: write(2) interposed for registered descriptors (simulated queue), time-outs forced, wire tampering catalogue, reflection and two-direction probes.",
     level_note=LEVEL_NOTE + " MAC unforgeability and cipher secrecy are assumed; real select() timing is not modelled (the harness forces select time-outs to zero); a full pipe (EAGAIN) of the non-blocking class is exercised by a back-pressure scenario in which the sender's sleep() is turned into receiver progress.",
-    assumptions=["HMAC unforgeability, AES-CFB/CTR secrecy", "partial: chunked modes and aiounicast_nonblock are not modelled in Lean (scenario predicate on the real classes only)",
-                 "known finding F13: the IV of an encrypted link is not covered by the MAC"],
+    assumptions=["HMAC unforgeability, AES-CFB/CTR secrecy", "integer arrays (vector Send/Receive) are judged by the predicate on the real objects only; EOF on read and multi-peer liveness are not modelled",
+                 "known finding F13: the IV of an encrypted link is not covered by the MAC",
+                 "known finding F42: no direction separation under the MAC (a reflected own message is delivered)",
+                 "known finding F43: chunked+encrypted select links reuse the CTR keystream in the two directions"],
 )
 
 
@@ -1615,6 +1635,21 @@ def pred_c20(line, st):
             if tag.startswith("flip:sig-") and same == "same=1":
                 return None
             return "altered / invalid signature accepted (%s, %s)" % (what, tag)
+        return None
+    if kind == "sig-unhashed":
+        # one more subpacket in the UNHASHED area of a library-made signature / key block: nothing may change
+        what = " ".join(a[1:-1])
+        cov["classes"].add("sig-unhashed:" + a[3])
+        cov.setdefault("unhashed", set()).add((a[3], a[4]))
+        before, after = r[0], (r[1] if len(r) > 1 else "?")
+        if a[3] in ("expired", "olderthankey", "future") and before != "refused":
+            return "signature that must be refused was accepted before any change (%s)" % what
+        if a[3] == "valid" and before != "ok":
+            return "valid signature refused (%s)" % what
+        if a[3].startswith("keyblock") and not before.startswith("ok:valid=1"):
+            return "honest key block refused (%s): %s" % (what, before)
+        if after != before:
+            return "unhashed subpacket changed the verdict / key properties (%s): %s -> %s" % (what, before, after)
         return None
     if kind == "keyblock":
         verdict, same = r[0], (r[1] if len(r) > 1 else "same=0")
